@@ -53,6 +53,8 @@ def faults_for(cap, keylog, conns, rng, quick):
     out.append(dict(kind="randsecrets"))
     out.append(dict(kind="nosuite"))
     out.append(dict(kind="foreign_tcp"))
+    out.append(dict(kind="foreign_tcp", mirror=1))
+    out.append(dict(kind="foreign_tcp", mirror=2))
     for ln in (1, 20, 23, 1200, 1472):
         for fill in ("zero", "rand", "long", "short", "vn"):
             out.append(dict(kind="foreign_udp", len=ln, fill=fill, port=rng.choice([443, 53, 4433, 50000])))
@@ -109,6 +111,12 @@ def apply_fault(cap, keylog, conns, flows, f, rng):
         pkts[i] = (pkts[i][0], tcp_frame(fl, sg.d, seq, ack, bytes(data)))
     elif k == "foreign_tcp":
         fl = mk_flow(9, ipv=4, sport=443)
+        if f.get("mirror") is not None and f["mirror"] < len(flows):
+            # the foreign flow runs between the SAME two hosts as a healthy bystander, in the opposite direction, with the same pair of port
+            # numbers (host B:50000 -> host A:443 next to host A:50000 -> host B:443): a different 4-tuple that shares every number
+            from wire.l2l4 import Endpoint, Flow
+            b = flows[f["mirror"]]
+            fl = Flow(Endpoint(b.server.mac, b.server.ip, b.client.port), Endpoint(b.client.mac, b.client.ip, b.server.port))
         t0 = pkts[3][0] + 1
         req = b"GET / HTTP/1.1\r\nHost: example\r\n\r\n"
         rsp = b"HTTP/1.1 200 OK\r\nContent-Length: 5\r\n\r\nhello"
